@@ -33,8 +33,17 @@ var structGens = []structGen{
 			}
 			ops := []Tok{TL(TNi(cmsNew), TNi(i), TNi(d.rows), TNi(d.cols))}
 			pool := g.ElementPool(2+g.Intn(8), true)
+			target := i
+			viaMerge := g.Chance(0.2) // filled only through Merge: derived fields (allSum) never move
+			if viaMerge {
+				target = i + 2
+				ops = append(ops, TL(TNi(cmsNew), TNi(target), TNi(d.rows), TNi(d.cols)))
+			}
 			for k, n := 0, g.Intn(25); k < n; k++ {
-				ops = append(ops, cmsUpdateOp(g, i, pool[g.Intn(len(pool))], g.cmsCount()))
+				ops = append(ops, cmsUpdateOp(g, target, pool[g.Intn(len(pool))], g.cmsCount()))
+			}
+			if viaMerge {
+				ops = append(ops, TL(TNi(cmsMerge), TNi(i), TNi(target)))
 			}
 			return ops, pool
 		},
@@ -164,6 +173,10 @@ var structGens = []structGen{
 				ctor.L[3] = TNu(ctor.L[3].U()/2 + 500000)
 			case 3:
 				ctor.L[4] = TNu(ctor.L[4].U()/3 + 1)
+			case 4: // a rate a few ulps away: same sketch shape, different parameter
+				ctor = TL(append(append([]Tok(nil), ctor.L...), TNi(1+g.Intn(3)), TNi(0))...)
+			case 5:
+				ctor = TL(append(append([]Tok(nil), ctor.L...), TNi(0), TNi(1+g.Intn(3)))...)
 			}
 			ops := []Tok{ctor}
 			pool := g.ElementPool(1+g.Intn(10), true)
@@ -289,22 +302,51 @@ func genPersist(sg structGen, mode string) func(g *Gen, tier string) *Case {
 func genC17(sg structGen) func(g *Gen, tier string) *Case {
 	return func(g *Gen, tier string) *Case {
 		sub := g.R.Int63()
-		ops, pool := sg.build(subGen(sub), 0, tier)
-		g2 := subGen(sub)
-		mode := g.Intn(10)
+		mode := g.Intn(12)
+		if mode >= 10 {
+			mode = 8
+		}
+		g1, g2 := subGen(sub), subGen(sub)
+		g1.Small, g2.Small = mode == 8, mode == 8 // narrow sketches: estimates depend on the order of colliding updates
+		ops, pool := sg.build(g1, 0, tier)
 		switch {
 		case mode < 3: // one constructor parameter differs, same operations
-			g2.Tweak = 1 + g.Intn(4)
+			g2.Tweak = 1 + g.Intn(5)
 		case mode == 3: // unrelated structure
 			g2 = g
 		}
 		ops2, _ := sg.build(g2, 1, tier)
+		if mode == 8 && len(ops2) > 2 {
+			// same updates in another order: the same multiset gives the same sketch cells, bits
+			// and registers, while order-dependent parts (a Top-K heap, cuckoo slots) may differ
+			code := ops2[len(ops2)-1].L[0].I()
+			if ops2[len(ops2)-1].L[0].I() != ops2[len(ops2)/2].L[0].I() {
+				code = ops2[len(ops2)/2].L[0].I()
+			}
+			var idx []int
+			for k := 1; k < len(ops2); k++ {
+				if ops2[k].L[0].I() == code && ops2[k].L[1].I() == 1 {
+					idx = append(idx, k)
+				}
+			}
+			perm := g.R.Perm(len(idx))
+			shuffled := append([]Tok(nil), ops2...)
+			for a, b := range perm {
+				shuffled[idx[a]] = ops2[idx[b]]
+			}
+			ops2 = shuffled
+		}
 		ops = append(ops, ops2...)
 		check := func() {
 			ops = append(ops, TL(TNi(opEquals), TNi(0), TNi(1)), TL(TNi(opEquals), TNi(1), TNi(0)))
 			ops = append(ops, pairedQueries(sg, g, 0, 1, pool)...)
 		}
 		check()
+		if mode == 9 && !sg.redis { // a document whose heap lost an entry (Top-K; a plain reload for the others)
+			e := 4800 + g.Intn(100)
+			ops = append(ops, TL(TNi(opExport), TNi(0), TNi(e)), TL(TNi(opImport), TNi(1), TNi(e), TNi(1+g.Intn(2))))
+			check()
+		}
 		if mode >= 4 && mode < 8 { // exactly one cell / register / slot / entry differs
 			ops = append(ops, TL(TNi(opMutate), TNi(g.Intn(2)), TNi(g.Intn(3)), TNu(uint64(1+g.Intn(200)))))
 			check()
